@@ -1463,6 +1463,9 @@ impl Campaign for BlockedFlushCampaign {
                 let _ = ftx.send(r);
             });
             match frx.recv_timeout(Duration::from_millis(150)) {
+                // (with nothing acknowledged yet the emitter may just not have run: an Ok flush of an
+                // empty buffer says nothing)
+                Ok(Ok(())) if acked.is_empty() => {}
                 Ok(Ok(())) => bad.push(format!(
                     "flush() returned Ok while another thread is blocked inside the sink (receiver queue full): {} metrics acknowledged before the flush cannot have been sent yet",
                     acked.len()
@@ -1470,10 +1473,10 @@ impl Campaign for BlockedFlushCampaign {
                 Ok(Err(_)) => {}
                 Err(_) => flush_blocked = true,
             }
-            // unclog and let everything finish
-            let _ = rx.unclog();
+            // unclog and let everything finish (a blocked sender may get its datagram in while the
+            // filler is still being drained: what unclog() finds besides the filler counts as received)
+            let mut got: Vec<Vec<u8>> = rx.unclog();
             let deadline = Instant::now() + w;
-            let mut got: Vec<Vec<u8>> = Vec::new();
             while (!emitter.is_finished() || !flusher.is_finished()) && Instant::now() < deadline {
                 got.extend(rx.recv_all(false));
                 while let Ok(m) = prx.try_recv() {
@@ -1565,10 +1568,9 @@ fn emit_behind_blocked_flush(case: &BlockedFlushCase, mut rx: Rx, path: PathBuf,
     let e = std::thread::spawn(move || s2.emit(&b2).map_err(|e| e.to_string()));
     std::thread::sleep(Duration::from_millis(40));
     let emit_waiting = !e.is_finished();
-    // let both proceed
-    let _ = rx.unclog();
+    // let both proceed (datagrams that slip in while the filler is drained count as received)
+    let mut got: Vec<Vec<u8>> = rx.unclog();
     let deadline = Instant::now() + w;
-    let mut got: Vec<Vec<u8>> = Vec::new();
     while (!f1.is_finished() || !e.is_finished()) && Instant::now() < deadline {
         got.extend(rx.recv_all(false));
         std::thread::sleep(Duration::from_micros(200));
